@@ -864,23 +864,27 @@ pub fn run_c18(run: &mut Run) -> Stats {
             let mut mk = || ranges.iter().map(|r| drain(crf.clone(), *r, *via_serve)).collect::<Vec<Job>>();
             let mut bad: Option<(Vec<usize>, String)> = None;
             let mut distinct: std::collections::HashSet<Vec<usize>> = Default::default();
+            let verdict_of = |t: usize, r: std::thread::Result<(Vec<u8>, String)>| -> String {
+                let (a, b) = ranges[t];
+                match r {
+                    Err(p) => format!("panic: {}", panic_msg(p)),
+                    Ok((got, term)) => {
+                        if term != "end" {
+                            format!("terminal event {term} after {} bytes", got.len())
+                        } else if got != content_vec(a, (b - a) as usize) {
+                            let first_bad = got.iter().zip(content_vec(a, (b - a) as usize).iter()).position(|(x, y)| x != y);
+                            format!("wrong bytes: {} delivered, {} expected, first difference at offset {:?} of the range", got.len(), b - a, first_bad)
+                        } else {
+                            "ok".to_string()
+                        }
+                    }
+                }
+            };
             let mut check = |choices: &[usize], rs: Vec<std::thread::Result<(Vec<u8>, String)>>, trace: &[crate::sysched::Decision]| {
                 distinct.insert(choices.to_vec());
                 for (t, r) in rs.into_iter().enumerate() {
                     let (a, b) = ranges[t];
-                    let verdict = match r {
-                        Err(p) => format!("panic: {}", panic_msg(p)),
-                        Ok((got, term)) => {
-                            if term != "end" {
-                                format!("terminal event {term} after {} bytes", got.len())
-                            } else if got != content_vec(a, (b - a) as usize) {
-                                let first_bad = got.iter().zip(content_vec(a, (b - a) as usize).iter()).position(|(x, y)| x != y);
-                                format!("wrong bytes: {} delivered, {} expected, first difference at offset {:?} of the range", got.len(), b - a, first_bad)
-                            } else {
-                                "ok".to_string()
-                            }
-                        }
-                    };
+                    let verdict = verdict_of(t, r);
                     if verdict != "ok" && bad.is_none() {
                         let sched: Vec<String> = trace.iter().map(|d| format!("T{}:{}", d.opts[d.chosen], d.call)).collect();
                         bad = Some((choices.to_vec(), format!("thread {t} draining {a}..{b}: {verdict}; schedule {}", sched.join(" "))));
@@ -889,6 +893,17 @@ pub fn run_c18(run: &mut Run) -> Stats {
             };
             let cap = tier.pick(4_000u64, 200_000);
             let ex = crate::sysched::explore(*bound, cap, &mut mk, &mut check);
+            // the same choice vector once more: the scheduler owns every decision, so the same
+            // schedule must fail again (the message says so if it does not)
+            if ex.hang.is_none() {
+                if let Some((choices, msg)) = bad.as_mut() {
+                    let again = match crate::sysched::run(mk(), choices) {
+                        Ok(e) => e.results.into_iter().enumerate().any(|(t, r)| verdict_of(t, r) != "ok"),
+                        Err(_) => false,
+                    };
+                    msg.push_str(if again { " [replayed: fails again]" } else { " [replayed: did NOT fail again -- the subject's threads are not fully determined by their system calls]" });
+                }
+            }
             {
                 total_exec += ex.executions;
                 calls.extend(ex.calls_seen.iter().copied());
